@@ -144,6 +144,12 @@ class P(Prop):
                 for t in TypeFuel:
                     for o in FuelOrigin:
                         out.append({"stream": "factors", "spec": spec, "type": t.value, "origin": o.value})
+            # engine class: every fuel kind of interest x cycle x speeds around the 200 rpm boundary x described by arguments / by a data file
+            for ty in (0, 2, 8):
+                for cy in (0, 1, 2, 3):
+                    for sp in (80, 199, 199.5, 200, 200.5, 514, 720, 1800):
+                        for ff in (False, True):
+                            out.append({"stream": "class", "type": ty, "cycle": cy, "speed": sp, "from_file": ff})
             self.exhaustive = True
         n = self.n_cases(tier, override)
         types = [t.value for t in TypeFuel]
